@@ -242,6 +242,8 @@ Definition req_late : reqstep := mkReqStep 1 PJar true (AOther 0) 7 [] [] [] Non
 Example invalidated_nonvacuous :
   let w := reach cfg_ex (hist_one ++ [HWait 1000]) in
   presented w req_late = CKey (KGen 0) /\
-  exists r0, L (w_st w) (KGen 0) = Some r0 /\
-    rec_valid (conf (w_st w)) (now (w_st w)) (mkReq (presented w req_late) true (AOther 0) 7) r0 = false.
-Proof. cbv zeta. split; [vm_compute; reflexivity|]. eexists. split; vm_compute; reflexivity. Qed.
+  match L (w_st w) (KGen 0) with
+  | Some r0 => negb (rec_valid (conf (w_st w)) (now (w_st w)) (mkReq (presented w req_late) true (AOther 0) 7) r0)
+  | None => false
+  end = true.
+Proof. vm_compute. split; reflexivity. Qed.
